@@ -60,10 +60,10 @@ theorem cinv_assemble {s s' : CSh} {pre post : List CTh} {t t' : CTh} (h : CInv 
       · have := sumL_ge (f := regc x) hu; omega
     rcases hu with hu | rfl | hu
     · have hi := h5 u (by simp [hu])
-      exact ⟨hi.ci, hi.ko, hi.lk, hi.si, hi.so, hoth u (Or.inl hu) hi.tl (hbound u (Or.inl hu))⟩
+      exact ⟨hi.ci, hi.ko, hi.lk, hi.si, hi.so, hoth u (Or.inl hu) hi.tl (hbound u (Or.inl hu)), hi.nd⟩
     · exact ht
     · have hi := h5 u (by simp [hu])
-      exact ⟨hi.ci, hi.ko, hi.lk, hi.si, hi.so, hoth u (Or.inr hu) hi.tl (hbound u (Or.inr hu))⟩
+      exact ⟨hi.ci, hi.ko, hi.lk, hi.si, hi.so, hoth u (Or.inr hu) hi.tl (hbound u (Or.inr hu)), hi.nd⟩
 
 theorem tl_mono {s s' : CSh} {u : CTh} (h : TL s u) (hm : ∀ y o, s.ent y = some o → s'.ent y = some o) : TL s' u :=
   ⟨fun a ha => hm _ _ (h.t1 a ha), fun ha => hm _ _ (h.t2 ha), fun p hp => hm _ _ (h.t3 p hp)⟩
@@ -108,7 +108,7 @@ theorem outside_of {t : CTh} (h : isInner t = false) : Outside t := by
     constructor <;> simp [pend, restPairs, acq, inA, isInner, bonusR, bonusW]
 
 theorem regc_outside {t : CTh} (h : isInner t = false) (x : Nat) :
-    regc x t = t.held.countP (fun h => h.1 == x) := by
+    regc x t = t.held.countP (fun h => h.1 == x) + (unrg t).count x := by
   have o := outside_of h
   simp [regc, o.acq, restEnts, o.rest]
 
@@ -141,18 +141,19 @@ theorem cinv_ctl {s : CSh} {pre post : List CTh} {t : CTh} (h : CInv s (pre ++ t
     (hni' : isInner { t with ctl := c', script := r } = false)
     (hdm : ∀ k : Nat, (if s.dm then 1 else 0) = k + fDm t →
       (if dm' then 1 else 0) = k + fDm { t with ctl := c', script := r })
-    (hsi : SI { t with ctl := c', script := r }) :
+    (hsi : SI { t with ctl := c', script := r })
+    (hun : unrg { t with ctl := c', script := r } = unrg t := by rfl) :
     CInv { s with dm := dm' } (pre ++ { t with ctl := c', script := r } :: post) := by
   have hti := h.th t (by simp)
   have hidle := hti.ci hni
   refine cinv_assemble h (fun o hw => hw) hdm ?_ ⟨h.rw.z, h.rw.lt, h.rw.inj⟩
     (fun u _ htl _ => ⟨htl.t1, htl.t2, htl.t3⟩) ?_
   · intro x k hk
-    rw [regc_outside hni'] 
+    rw [regc_outside hni', hun]
     rw [regc_outside hni] at hk
     exact hk
   · have o' := outside_of hni'
-    refine ⟨fun _ => hidle, ?_, ?_, hsi, hti.so, ?_⟩
+    refine ⟨fun _ => hidle, ?_, ?_, hsi, hti.so, ?_, by rw [hun]; exact hti.nd⟩
     · revert hni'; cases c' <;> simp [KOk, isInner]
     · rw [lk_outside_iff hni' hidle]
       exact (lk_outside_iff hni hidle).mp hti.lk
@@ -187,7 +188,7 @@ theorem cinv_inner {s : CSh} {pre post : List CTh} {t : CTh} (h : CInv s (pre ++
       simpa [upd] using hw1
     · rw [hpo o ho]
       simpa [upd, ho] using hw
-  · refine ⟨?_, hti.ko, ?_, hti.si, hti.so, ⟨hti.tl.t1, hti.tl.t2, hti.tl.t3⟩⟩
+  · refine ⟨?_, hti.ko, ?_, hti.si, hti.so, ⟨hti.tl.t1, hti.tl.t2, hti.tl.t3⟩, hti.nd⟩
     · intro hi; simp [isInner, hc] at hi
     · refine ⟨?_, hti.lk.dis, hti.lk.nin, hti.lk.pnd⟩
       intro o
@@ -296,15 +297,16 @@ theorem cinv_lockC {s : CSh} {pre post : List CTh} {t : CTh} (h : CInv s (pre ++
     simp only [fDm, startInner]
     cases hd : s.dm <;> simp [hd] at hk ⊢ <;> omega
   · intro y k hk
-    rw [regc_outside hni] at hk
+    have hun : unrg t = [] := by simp [unrg, hc]
+    rw [regc_outside hni, hun] at hk
     have hcn := hspec.cnt y
     show (regOne s x).1.cnt y = _
     rw [hcn, hk]
-    simp only [regc, acq, isInner, startInner, restEnts, restPairs, List.count_cons, List.count_nil]
+    simp only [regc, acq, isInner, startInner, restEnts, restPairs, unrg, List.count_cons, List.count_nil]
     by_cases hy : x = y <;> simp [hy] <;> omega
   · intro u _ htl _
     exact tl_mono htl hspec.mono
-  · refine ⟨?_, ?_, ?_, ?_, hti.so, ?_⟩
+  · refine ⟨?_, ?_, ?_, ?_, hti.so, ?_, by simp [unrg, startInner]⟩
     · intro hi; simp [isInner, startInner] at hi
     · simp [KOk, startInner]
     · exact lk_start_acq hni hidle hti.lk .lock (Or.inl rfl) x _ .done (by simp [pend, startInner]) hz
